@@ -38,3 +38,47 @@ package internal
 //@ ensures shardsOk(s)
 //@ ensures forall i int :: 0 <= i && i < len(updates) ==> inmap(s.shards, updates[i].Id) && s.shards[updates[i].Id].HashRange.MinInclusive == updates[i].HashRange.MinInclusive && s.shards[updates[i].Id].HashRange.MaxInclusive == updates[i].HashRange.MaxInclusive
 //@ modifies mapof(s.shards)
+
+// C20: responses of a write stream are matched to requests by position in pendingRequests.
+// Send only ever appends its own future to the queue (whatever the outcome of the call: a
+// caller that gives up does not take its slot out, the answer still arrives), and the response
+// loop completes exactly the head of the queue with the response it has just received.
+// Both run under the wrapper's mutex; what the other goroutine does while Send waits is outside
+// the sequential view of one call.
+//
+//@ func streamWrapper.Send(sw, ctx, req) (res, err)
+//@ property C20
+//@ requires sw.stream != nil
+//@ ensures len(sw.pendingRequests) == old(len(sw.pendingRequests)) + 1
+//@ ensures forall i int :: 0 <= i && i < old(len(sw.pendingRequests)) ==> sw.pendingRequests[i] == old(sw.pendingRequests[i])
+//@ ensures sw.pendingRequests[old(len(sw.pendingRequests))] != nil
+//@ modifies *
+
+// The response loop: the future completed is the head of the queue as it was when the lock
+// was taken, completed with the response just received, and the queue that remains is the
+// tail in the same order (one pop per response, nothing skipped or reordered).
+//@ func streamWrapper.handleResponses(sw)
+//@ property C20
+//@ requires sw.stream != nil
+//@ requires forall i int :: 0 <= i && i < len(sw.pendingRequests) ==> sw.pendingRequests[i] != nil
+//@ loop 0 invariant sw.stream != nil
+//@ loop 0 invariant forall i int :: 0 <= i && i < len(sw.pendingRequests) ==> sw.pendingRequests[i] != nil
+//@ assume at call Debug#0: len(sw.pendingRequests) >= 1 because the server answers each request it received once, in order: a response arrives only while its request is pending
+//@ assert at call Complete#0: recv == atcall("Lock", 0, sw.pendingRequests)[0] && result == response
+//@ assert at call Complete#0: len(sw.pendingRequests) == len(atcall("Lock", 0, sw.pendingRequests)) - 1
+//@ assert at call Complete#0: forall i int :: 0 <= i && i < len(sw.pendingRequests) ==> sw.pendingRequests[i] == atcall("Lock", 0, sw.pendingRequests)[i+1]
+//@ modifies *
+
+// When the stream ends every request still pending is failed (each of them: ghost done, set by
+// Fail), and the queue is emptied.
+//@ func streamWrapper.handleStreamClosed(sw)
+//@ property C20
+//@ requires sw.stream != nil
+//@ assume at call Lock#0: forall i int :: 0 <= i && i < len(sw.pendingRequests) ==> sw.pendingRequests[i] != nil because Send appends only futures it has just created (its postcondition)
+//@ loop 0 exhaustive
+//@ loop 0 invariant sw.pendingRequests == atcall("Lock", 0, sw.pendingRequests) && len(sw.pendingRequests) == len(atcall("Lock", 0, sw.pendingRequests))
+//@ loop 0 invariant forall i int :: 0 <= i && i < len(sw.pendingRequests) ==> sw.pendingRequests[i] == atcall("Lock", 0, sw.pendingRequests[i]) && sw.pendingRequests[i] != nil
+//@ loop 0 invariant forall i int :: 0 <= i && i <= rangeindex ==> ghost(done, sw.pendingRequests[i]) == 1
+//@ ensures forall i int :: 0 <= i && i < len(atcall("Lock", 0, sw.pendingRequests)) ==> ghost(done, atcall("Lock", 0, sw.pendingRequests[i])) == 1
+//@ ensures len(sw.pendingRequests) == 0
+//@ modifies *
